@@ -255,7 +255,9 @@ Proof.
     + cbn. destruct S1 as [a b c d]. constructor; cbn; auto.
       intros k' v' t' Hin. apply in_app_iff in Hin as [Hin|[Hin|[]]]; [eauto|inv Hin; auto].
     + destruct (farthest s1) as [[f fd]|].
-      * destruct (fd <? e_dist E k); cbn; auto.
+      * destruct (fd <? e_dist E k); cbn [snd].
+        { apply safe_set_cache; auto. intros k' v' Hin.
+          apply (in_aremove keyb keyb_eq) in Hin. apply (safe_cache _ _ _ S1); tauto. }
         pose proof (safe_remove E H s1 f S1) as [a b c d]. constructor; cbn; auto.
         intros k' v' t' Hin. cbn in d. apply in_app_iff in Hin as [Hin|[Hin|[]]]; [eauto|inv Hin; auto].
       * cbn. destruct S1 as [a b c d]. constructor; cbn; auto.
